@@ -30,7 +30,7 @@ def guard_read(ctx, prog, R="C07.GUARD-read"):
     syms = [dtab.Sym("state", lambda e: e[0] == "call" and e[1].endswith("incr_state"), {0: "gone", 1: "alive"}),
             dtab.Sym("status", dtab.is_field_get("status"), dtab.enum_domain(prog, STATUS))]
     acts = [dtab.Action("value_inner", lambda t: q.callee_is(t, "InternalObserver::value_inner"))]
-    tb = dtab.table(F, syms, acts)
+    tb = dtab.table(F, syms, acts, path_sensitive=True)
     for (st, status), res in sorted(tb.items()):
         got = dtab.summarize(res)
         ctx.site(R, F, "(%s,%s) -> %s" % (st, status, got))
